@@ -11,7 +11,8 @@
    of arrivals.  [log s] = handler starts (EvS c), completed operations (EvO c j), handler ends (EvE c), replies (EvR c).
    [inline c] = c is a method call to an interface with spawning disabled; [inline_log calls l] = the events of l that
    belong to inline calls; [sequential_order calls] = for the inline calls in arrival order: S c, O c 0 .. O c (n-1),
-   E c, R c.  [safe calls] (C29/Safe.v) = the code paths of the burst respect one lock order (decidable); it contains
+   E c, and R c unless the call carries NO_REPLY_EXPECTED ([c_noreply]; such a call is dispatched exactly like the
+   others — the flag only suppresses the reply).  [safe calls] (C29/Safe.v) = the code paths of the burst respect one lock order (decidable); it contains
    every burst of method calls whose handlers await, register, remove, emit ([methods_only], proved below). *)
 From ZV Require Import Base.Bytes C29.Model C29.Spec C29.Steps C29.Exec C29.Judge C29.Safe C29.Replies C29.Measure C29.Proofs.
 
@@ -30,7 +31,8 @@ Proof. exact order_complete_thm. Qed.
 Print Assumptions C29_order_complete.
 
 (* every call gets its reply: never two, and as long as a reply is missing some step is enabled (no deadlock); when
-   nothing can step any more, every call of the burst has exactly one reply.  Holds for spawn enabled and disabled. *)
+   nothing can step any more, every call of the burst has exactly one reply — none if it carries NO_REPLY_EXPECTED
+   ([replies_ok]).  Holds for spawn enabled and disabled. *)
 Theorem C29_all_reply : forall (calls : list call) (tr : list label) (s : sys),
   NoDup (map c_id calls) -> safe calls = true -> reach calls tr s ->
   (forall n, count_ev (EvR n) (log s) <= if memn n (map c_id calls) then 1 else 0) /\
